@@ -507,7 +507,7 @@ func (r *vRun) protoValueCase(m *vMsg, v reflect.Value, marshal func() ([]byte, 
 				r.out.Oracle("proto-roundtrip", term, fmt.Sprintf("known:negative-zero %s: -0.0 in a singular double field is not marshalled (gogo `!= 0` guard) and comes back as +0.0 (%d field(s))", label, info.negzero))
 			}
 			if info.nilinner > 0 {
-				r.out.Oracle("proto-roundtrip", term, fmt.Sprintf("known:empty-bytes %s: a oneof member holding a nil []byte (pcommon.Value.SetEmptyBytes) is not marshalled and comes back as an unset value (%d member(s))", label, info.nilinner))
+				r.out.Oracle("proto-roundtrip", term, fmt.Sprintf("%s: a oneof member holding a nil []byte is not marshalled and comes back as an unset value (%d member(s)) — the public API must never build one (NewValueBytes / SetEmptyBytes store an empty non-nil slice)", label, info.nilinner))
 			}
 		} else {
 			r.out.Oracle("proto-roundtrip", term, fmt.Sprintf("%s: Unmarshal(Marshal(v)) differs from v: %s", label, vDiff(t0, t1)))
@@ -686,4 +686,7 @@ func TestVerifC08(t *testing.T) {
 
 	// (I) objects whose entries interact: oneof members, duplicate keys, both spellings
 	r.multiKeyCases()
+
+	// (K) regression streams of the repaired findings: empty Bytes values through every API path, invalid UTF-8
+	r.regressionStreams()
 }
